@@ -1,17 +1,337 @@
-//! C16 — stub (monitor not written yet)
-use serde_json::Value;
+//! C16 — the serde form is exactly the string form.
+//!
+//! Differential oracle against Display / FromStr, a recording `Serializer` that must see
+//! exactly one string, and a battery of non-string values that must be refused.
 
-use super::Fail;
-use crate::obs::{Ctx, Tier};
+use std::fmt::{self, Debug, Display};
+use std::str::FromStr;
 
-pub const RULE: &str = "";
+use purl::{GenericPurl, PackageType, PurlShape};
+use serde::de::value::{BoolDeserializer, BytesDeserializer, Error as ValueError, I64Deserializer, MapDeserializer, SeqDeserializer, StrDeserializer, U64Deserializer, UnitDeserializer};
+use serde::de::DeserializeOwned;
+use serde::ser::{Impossible, Serialize, Serializer};
+use serde::Deserialize;
+use serde_json::{json, Value};
 
-pub fn requirements(_tier: Tier) -> Vec<(&'static str, u64)> {
-    vec![("not-implemented", 1)]
+use super::{str_field, Fail};
+use crate::gen;
+use crate::obs::{self, guard, Ctx, Out, Snap, Tier};
+use crate::rng::fnv;
+use crate::shrink::shrink_str;
+use crate::spell;
+
+pub const RULE: &str = "a case is one input string for one instantiation, taken through Deserialize (JSON, plain and \\u-escaped) next to FromStr, and - when accepted - through Serialize next to Display; non-trivial = every accepted string plus every refused one whose refusal is compared; distinct by hash of (instantiation, string)";
+
+pub fn requirements(tier: Tier) -> Vec<(&'static str, u64)> {
+    let q = tier == Tier::Quick;
+    vec![
+        ("deserialised:accepted", if q { 100_000 } else { 2_000_000 }),
+        ("deserialised:refused-like-from_str", 100_000),
+        ("serialised", 100_000),
+        ("recording-serializer-runs", 100_000),
+        ("json-unicode-escaped-inputs", 10_000),
+        ("non-string-values-refused", 400),
+        ("typed-instantiation", 50_000),
+    ]
 }
 
-pub fn run(_ctx: &mut Ctx) {}
+// --- a Serializer that records what it is given --------------------------------------------
 
-pub fn replay(_monitor: &str, _case: &Value) -> Result<Option<Fail>, String> {
-    Err("not implemented".into())
+#[derive(Debug)]
+pub struct RecErr(String);
+
+impl Display for RecErr {
+    fn fmt(&self, f: &mut fmt::Formatter<'_>) -> fmt::Result {
+        f.write_str(&self.0)
+    }
+}
+
+impl std::error::Error for RecErr {}
+
+impl serde::ser::Error for RecErr {
+    fn custom<T: Display>(msg: T) -> Self {
+        RecErr(msg.to_string())
+    }
+}
+
+/// Accepts exactly `serialize_str` (and `collect_str`, which serde defines through it);
+/// everything else is reported as "serialised as <kind>".
+pub struct Recorder;
+
+macro_rules! refuse {
+    ($($name:ident($($arg:ty),*) ;)*) => {
+        $(fn $name(self, $(_: $arg),*) -> Result<Self::Ok, Self::Error> {
+            Err(RecErr(format!("serialised through {}", stringify!($name))))
+        })*
+    };
+}
+
+impl Serializer for Recorder {
+    type Error = RecErr;
+    type Ok = String;
+    type SerializeMap = Impossible<String, RecErr>;
+    type SerializeSeq = Impossible<String, RecErr>;
+    type SerializeStruct = Impossible<String, RecErr>;
+    type SerializeStructVariant = Impossible<String, RecErr>;
+    type SerializeTuple = Impossible<String, RecErr>;
+    type SerializeTupleStruct = Impossible<String, RecErr>;
+    type SerializeTupleVariant = Impossible<String, RecErr>;
+
+    refuse! {
+        serialize_bool(bool); serialize_i8(i8); serialize_i16(i16); serialize_i32(i32); serialize_i64(i64);
+        serialize_u8(u8); serialize_u16(u16); serialize_u32(u32); serialize_u64(u64);
+        serialize_f32(f32); serialize_f64(f64); serialize_char(char); serialize_bytes(&[u8]);
+        serialize_none(); serialize_unit(); serialize_unit_struct(&'static str);
+        serialize_unit_variant(&'static str, u32, &'static str);
+    }
+
+    fn serialize_str(self, v: &str) -> Result<String, RecErr> {
+        Ok(v.to_string())
+    }
+
+    fn serialize_some<T: ?Sized + Serialize>(self, _: &T) -> Result<String, RecErr> {
+        Err(RecErr("serialised through serialize_some".into()))
+    }
+
+    fn serialize_newtype_struct<T: ?Sized + Serialize>(self, _: &'static str, _: &T) -> Result<String, RecErr> {
+        Err(RecErr("serialised through serialize_newtype_struct".into()))
+    }
+
+    fn serialize_newtype_variant<T: ?Sized + Serialize>(self, _: &'static str, _: u32, _: &'static str, _: &T) -> Result<String, RecErr> {
+        Err(RecErr("serialised through serialize_newtype_variant".into()))
+    }
+
+    fn serialize_seq(self, _: Option<usize>) -> Result<Self::SerializeSeq, RecErr> {
+        Err(RecErr("serialised as a sequence".into()))
+    }
+
+    fn serialize_tuple(self, _: usize) -> Result<Self::SerializeTuple, RecErr> {
+        Err(RecErr("serialised as a tuple".into()))
+    }
+
+    fn serialize_tuple_struct(self, _: &'static str, _: usize) -> Result<Self::SerializeTupleStruct, RecErr> {
+        Err(RecErr("serialised as a tuple struct".into()))
+    }
+
+    fn serialize_tuple_variant(self, _: &'static str, _: u32, _: &'static str, _: usize) -> Result<Self::SerializeTupleVariant, RecErr> {
+        Err(RecErr("serialised as a tuple variant".into()))
+    }
+
+    fn serialize_map(self, _: Option<usize>) -> Result<Self::SerializeMap, RecErr> {
+        Err(RecErr("serialised as a map".into()))
+    }
+
+    fn serialize_struct(self, _: &'static str, _: usize) -> Result<Self::SerializeStruct, RecErr> {
+        Err(RecErr("serialised as a struct".into()))
+    }
+
+    fn serialize_struct_variant(self, _: &'static str, _: u32, _: &'static str, _: usize) -> Result<Self::SerializeStructVariant, RecErr> {
+        Err(RecErr("serialised as a struct variant".into()))
+    }
+}
+
+fn json_escaped(s: &str) -> String {
+    // every character as \uXXXX (surrogate pairs for astral characters)
+    let mut o = String::from("\"");
+    let mut buf = [0u16; 2];
+    for c in s.chars() {
+        for u in c.encode_utf16(&mut buf) {
+            o.push_str(&format!("\\u{:04x}", u));
+        }
+    }
+    o.push('"');
+    o
+}
+
+pub struct Seen {
+    pub accepted: bool,
+}
+
+pub fn judge<T>(s: &str) -> (Seen, Option<Fail>)
+where
+    T: FromStr + PurlShape + PartialEq + Clone + Debug,
+    <T as PurlShape>::Error: From<<T as FromStr>::Err> + Debug + Display,
+    GenericPurl<T>: DeserializeOwned + Serialize,
+{
+    let direct = obs::parse::<T>(s);
+    let plain = serde_json::to_string(s).expect("string to json");
+    let mut seen = Seen { accepted: false };
+    for (how, js) in [("plain JSON string", plain.clone()), ("\\u-escaped JSON string", json_escaped(s))] {
+        let de = guard("serde_json::from_str", || serde_json::from_str::<GenericPurl<T>>(&js));
+        match (&direct, de) {
+            (_, Out::Panic(m)) => return (seen, Some(Fail::tagged("panicked", m.clone(), format!("deserialising {js}: {m}")))),
+            (Out::Ok(p), Out::Ok(Ok(q))) => {
+                if *p != q {
+                    return (seen, Some(Fail::tagged("deserialised-differs", how, format!("{s:?} via {how}: deserialised {:?}, from_str gives {:?}", Snap::of(&q), Snap::of(p)))));
+                }
+            },
+            (Out::Ok(_), Out::Ok(Err(e))) => return (seen, Some(Fail::tagged("deserialise-refuses-valid", how, format!("{s:?} parses, but deserialising it ({how}) fails: {e}")))),
+            (Out::Err(e), Out::Ok(Ok(q))) => return (seen, Some(Fail::tagged("deserialise-accepts-invalid", how, format!("from_str({s:?}) = Err({e}) but deserialising it ({how}) gives {:?}", Snap::of(&q))))),
+            (Out::Err(_), Out::Ok(Err(_))) => {},
+            (Out::Panic(m), _) => return (seen, Some(Fail::tagged("panicked", m.clone(), format!("from_str({s:?}): {m}")))),
+            (_, Out::Err(_)) => unreachable!(),
+        }
+    }
+    let Out::Ok(p) = direct else { return (seen, None) };
+    seen.accepted = true;
+    // Serialize: exactly the canonical string, as one string value
+    let c = match obs::show(&p) {
+        Out::Ok(c) => c,
+        o => return (seen, Some(Fail::new("format-panicked", o.kind()))),
+    };
+    match guard("serde_json::to_string", || serde_json::to_string(&p)) {
+        Out::Ok(Ok(js)) => {
+            let want = serde_json::to_string(&c).expect("string to json");
+            if js != want {
+                return (seen, Some(Fail::tagged("serialised-form-differs", "", format!("{s:?}: serialised as {js}, the canonical string as JSON is {want}"))));
+            }
+            // JSON round trip
+            match serde_json::from_str::<GenericPurl<T>>(&js) {
+                Ok(q) if q == p => {},
+                o => return (seen, Some(Fail::tagged("json-round-trip", "", format!("{s:?}: {js} deserialises to {:?}", o.map(|q| Snap::of(&q)))))),
+            }
+        },
+        o => return (seen, Some(Fail::tagged("serialise-failed", "", format!("{s:?}: {:?}", o.map(|r| r.map_err(|e| e.to_string())))))),
+    }
+    match guard("Serialize::serialize(Recorder)", || p.serialize(Recorder)) {
+        Out::Ok(Ok(got)) if got == c => {},
+        Out::Ok(Ok(got)) => return (seen, Some(Fail::tagged("serialised-string-differs", "", format!("{s:?}: serializer received {got:?}, canonical string is {c:?}")))),
+        Out::Ok(Err(e)) => return (seen, Some(Fail::tagged("not-serialised-as-one-string", e.0.clone(), format!("{s:?}: {}", e.0)))),
+        o => return (seen, Some(Fail::new("serialise-panicked", o.kind()))),
+    }
+    (seen, None)
+}
+
+fn judge_dyn(inst: &str, s: &str) -> (Seen, Option<Fail>) {
+    match inst {
+        "String" => judge::<String>(s),
+        _ => judge::<PackageType>(s),
+    }
+}
+
+/// Values that are not strings must be refused.
+pub fn non_string_battery<T>() -> (u64, Option<Fail>)
+where
+    T: FromStr + PurlShape + Debug,
+    <T as PurlShape>::Error: From<<T as FromStr>::Err> + Debug + Display,
+    GenericPurl<T>: DeserializeOwned,
+{
+    let mut n = 0;
+    let jsons = [
+        "null", "true", "false", "0", "1", "-1", "1.5", "1e3", "[]", "{}", "[\"pkg:t/n\"]", "{\"purl\":\"pkg:t/n\"}", "{\"pkg:t/n\":null}", "[112,107,103]",
+        "{\"type\":\"t\",\"name\":\"n\"}", "[[\"pkg:t/n\"]]",
+    ];
+    for js in jsons {
+        n += 1;
+        if let Ok(p) = serde_json::from_str::<GenericPurl<T>>(js) {
+            return (n, Some(Fail::tagged("non-string-accepted", js, format!("JSON value {js} was deserialised into a PURL: {:?}", Snap::of(&p)))));
+        }
+    }
+    type D<'a, X> = Result<GenericPurl<X>, ValueError>;
+    let checks: Vec<(&str, bool)> = vec![
+        ("bytes", (GenericPurl::<T>::deserialize(BytesDeserializer::<ValueError>::new(b"pkg:t/n")) as D<T>).is_ok()),
+        ("unit", (GenericPurl::<T>::deserialize(UnitDeserializer::<ValueError>::new()) as D<T>).is_ok()),
+        ("bool", (GenericPurl::<T>::deserialize(BoolDeserializer::<ValueError>::new(true)) as D<T>).is_ok()),
+        ("u64", (GenericPurl::<T>::deserialize(U64Deserializer::<ValueError>::new(7)) as D<T>).is_ok()),
+        ("i64", (GenericPurl::<T>::deserialize(I64Deserializer::<ValueError>::new(-7)) as D<T>).is_ok()),
+        ("seq", (GenericPurl::<T>::deserialize(SeqDeserializer::<_, ValueError>::new(vec!["pkg:t/n"].into_iter())) as D<T>).is_ok()),
+        ("map", (GenericPurl::<T>::deserialize(MapDeserializer::<_, ValueError>::new(vec![("pkg:t/n", "x")].into_iter())) as D<T>).is_ok()),
+    ];
+    for (what, accepted) in checks {
+        n += 1;
+        if accepted {
+            return (n, Some(Fail::tagged("non-string-accepted", what, format!("a {what} value was deserialised into a PURL"))));
+        }
+    }
+    // and the positive control: a str deserializer works exactly like from_str
+    n += 1;
+    let ok = (GenericPurl::<T>::deserialize(StrDeserializer::<ValueError>::new("pkg:npm/n")) as D<T>).is_ok();
+    if !ok {
+        return (n, Some(Fail::tagged("str-deserializer-refused", "", "StrDeserializer(\"pkg:npm/n\") was refused")));
+    }
+    (n, None)
+}
+
+fn one(ctx: &mut Ctx, inst: &'static str, s: &str) {
+    ctx.st.evaluations += 1;
+    ctx.st.count("json-unicode-escaped-inputs");
+    if inst == "Purl" {
+        ctx.st.count("typed-instantiation");
+    }
+    let (seen, f) = judge_dyn(inst, s);
+    ctx.st.nontrivial(fnv(format!("{inst}\u{0}{s}").as_bytes()));
+    if seen.accepted {
+        ctx.st.count("deserialised:accepted");
+        ctx.st.count("serialised");
+        ctx.st.count("recording-serializer-runs");
+        ctx.st.sample(|| json!({"instantiation": inst, "input": s, "serde": "Deserialize == from_str; Serialize == one string == to_string()"}));
+    } else if f.is_none() {
+        ctx.st.count("deserialised:refused-like-from_str");
+    }
+    if let Some(f) = f {
+        let (kind, tag) = (f.kind.clone(), f.tag.clone());
+        let min = shrink_str(s, &mut |c| judge_dyn(inst, c).1.map_or(false, |g| g.kind == kind && g.tag == tag));
+        let g = judge_dyn(inst, &min).1.unwrap_or(f);
+        ctx.st.violation("C16.serde", g.signature("C16.serde", &min), g.detail, json!({"kind": "string", "instantiation": inst, "input": min}));
+    }
+}
+
+pub fn run(ctx: &mut Ctx) {
+    // non-string values (per worker a few times; they are deterministic)
+    for _ in 0..2 {
+        for (inst, r) in [("String", non_string_battery::<String>()), ("Purl", non_string_battery::<PackageType>())] {
+            ctx.st.evaluations += r.0;
+            ctx.st.add("non-string-values-refused", r.0);
+            if let Some(f) = r.1 {
+                ctx.st.violation("C16.serde", format!("C16.serde:{}:{}", f.kind, f.tag), f.detail, json!({"kind": "battery", "instantiation": inst}));
+            }
+        }
+    }
+    let (w, n, quick) = (ctx.worker, ctx.nworkers, ctx.quick());
+    {
+        let mut f = |_i: u64, s: &str| {
+            one(ctx, "String", s);
+            one(ctx, "Purl", s);
+        };
+        let (total, name) = gen::for_each_g1_reduced(quick, w, n, &mut f);
+        if ctx.worker == 0 {
+            ctx.st.exhaustive.push(json!({"name": format!("{name}: Deserialize vs from_str, Serialize vs Display"), "size": total, "completed": true, "instantiations": 2}));
+        }
+    }
+    let mut r = ctx.rng("c16.g2");
+    for _ in 0..ctx.share(60_000, 2_000_000) {
+        let known = r.coin();
+        let t = spell::gen_tuple(&mut r, known);
+        let mask = spell::random_mask(&mut r);
+        let sp = spell::spell(&mut r, &t, mask);
+        let s = sp.assemble();
+        one(ctx, "String", &s);
+        if known {
+            one(ctx, "Purl", &s);
+        }
+        // a damaged variant: rejected strings matter here
+        let kind = *r.pick(spell::FAULT_KINDS);
+        if let Some(bad) = spell::inject(&mut r, &t, &sp, kind) {
+            one(ctx, "String", &bad);
+            one(ctx, "Purl", &bad);
+        }
+    }
+    let (corpus, _) = gen::load_corpus();
+    let mut r = ctx.rng("c16.g10");
+    for _ in 0..ctx.share(60_000, 2_000_000) {
+        let s = gen::mutate(&mut r, &corpus);
+        one(ctx, "String", &s);
+        one(ctx, "Purl", &s);
+    }
+}
+
+pub fn replay(_monitor: &str, case: &Value) -> Result<Option<Fail>, String> {
+    match str_field(case, "kind")? {
+        "string" => Ok(judge_dyn(str_field(case, "instantiation")?, str_field(case, "input")?).1),
+        "battery" => Ok(match str_field(case, "instantiation")? {
+            "String" => non_string_battery::<String>().1,
+            _ => non_string_battery::<PackageType>().1,
+        }),
+        o => Err(format!("unknown case kind {o}")),
+    }
 }
